@@ -87,23 +87,24 @@ def run(chk: core.Check):
     plans = [((5, 6), False, 3), ((5, 6), True, 2), ((5, 5, 6), False, 2), ((5, 5, 6), True, 2)]
     if not quick:
         plans += [((7, 5), False, 6), ((6, 5, 7), False, 4), ((5, 6, 5), True, 4)]
-    variants = [(np.float64, "exact"), (np.float64, "compile")] + ([] if quick else [(np.float32, "compile")])
+    variants = [(np.float64, "exact", "contig"), (np.float64, "compile", "contig"), (np.float64, "compile", "pad")] + (
+        [] if quick else [(np.float32, "compile", "contig"), (np.float32, "compile", "step")])
     for pi, (shp, imp, num) in enumerate(plans):
         r = tlc.run_wrapped("MC_Kernels", {"Shape": list(shp), "Impulses": imp, "OnlyOps": set(STEP_OPS)}, KCFG,
                             raw={"Vals": "-3..3", "PVals": "{-2, -1, 1, 2, 3}"}, mode="simulate",
                             simulate={"num": num, "depth": 20}, seed=chk.seed + pi, timeout=600)
         chk.add_tlc(f"MC_Kernels steps {list(shp)}", r)
         for e in r.emits:
-            for real_t, backend in variants:
+            for real_t, backend, arena in variants:
                 try:
-                    errs = kernels.replay_emit(e, real_t, backend)
+                    errs = kernels.replay_emit(e, real_t, backend, arena)
                 except Exception as ex:
                     errs = [f"exception {type(ex).__name__}: {ex}"]
                 chk.traces += 1
-                chk.count((e["op"]["name"], tuple(shp), imp, repr(e["ps"]), backend, real_t.__name__, len(chk.nontrivial)))
+                chk.count((e["op"]["name"], tuple(shp), imp, repr(e["ps"]), backend, arena, real_t.__name__, len(chk.nontrivial)))
                 if errs:
                     chk.violation({"op": e["op"]["name"], "dim": len(shp)},
-                                  f"time-step kernel {e['op']['name']} shape={shp} {backend}/{real_t.__name__}: " + "; ".join(errs[:3]),
+                                  f"time-step kernel {e['op']['name']} shape={shp} {backend}/{real_t.__name__}/{arena}: " + "; ".join(errs[:3]),
                                   {"emit": e, "errors": errs})
             if len(chk.samples) < 3 and e["op"]["name"] in ("stretch_ssprk3", "adv_step"):
                 chk.sample({"op": e["op"], "ps": e["ps"], "shape": e["shape"]})
